@@ -178,3 +178,170 @@ def check(ctx, wd, pmap):
                            "sched": [r["seed"], r["policy"]],
                            "what": f"SECS-I transaction {r['dir']}, body {r['n']}, reply {'after the requester s T3' if r['late'] else 'in time'}, its send reported success: "
                                    f"{v['clause']} at event {v['at']} ({[e['e'] for e in r['ev']]})"})
+
+
+# ------------------------------------------------------------------------------------------------------------------------------
+# C06 over SECS-I: requests of both stations at the same moment (line contention: both send ENQ, the host yields)
+def run_contention(it):
+    rec = dict(it)
+    ev = []
+    rec["ev"] = ev
+
+    def main(s):
+        import secsgem.common
+        import secsgem.secs.functions as sf
+        import secsgem.secsi
+        from ..link import FakeConnection, Link
+
+        class St(secsgem.secsi.SecsISettings):
+            def __init__(self, lk, **kw):
+                super().__init__(**kw)
+                self._lk = lk
+
+            def create_connection(self):
+                return FakeConnection(self, self._lk)
+
+        rng = random.Random(it["seed"])
+        lh, le = Link("host"), Link("equipment")
+        host = secsgem.secsi.SecsIProtocol(St(lh, port="A", device_type=secsgem.common.DeviceType.HOST))
+        eqp = secsgem.secsi.SecsIProtocol(St(le, port="B", device_type=secsgem.common.DeviceType.EQUIPMENT))
+        pend = {"H": bytearray(), "E": bytearray()}
+        lh.on_send_hook = lambda d: pend["H"].extend(d)
+        le.on_send_hook = lambda d: pend["E"].extend(d)
+        t3 = host._settings.timeouts.t3
+        ncall = it["ncall"]
+
+        # the equipment answers the host's requests and sends primaries of its own; the host hands those to the application
+        def eq_app(d):
+            m = d["message"]
+            if m.header.function == 25:
+                tag = int.from_bytes(bytes(m.data)[-4:], "big") if len(m.data) >= 4 else -1
+                ev.append({"e": "Out", "sys": format(m.header.system, "08x"), "tag": f"t{tag}"})
+                if tag not in it["never"]:
+                    ev.append({"e": "InReply", "sys": format(m.header.system, "08x"), "tag": f"t{tag}"})
+                    simrt.Thread(target=lambda: eqp.send_response(sf.SecsS02F26(bytes(m.data)[2:] if len(m.data) > 2 else b""), m.header.system), name="eq_reply").start()
+
+        def host_app(d):
+            m = d["message"]
+            uid = f"u{int.from_bytes(bytes(m.data)[-2:], 'big')}" if m.header.function == 25 else f"x{m.header.stream}.{m.header.function}"
+            rec.setdefault("handed", []).append(uid)      # whether a primary gets through a contended line is the line protocol's matter
+                                                          # (C17); what arrives is handed over at most once, in order
+
+        eqp.events.message_received += eq_app
+        host.events.message_received += host_app
+        host.enable()
+        eqp.enable()
+        lh.connect()
+        le.connect()
+        s.settle()
+        done = {}
+
+        def caller(c):
+            tag = 100 + c
+            ev.append({"e": "Call", "c": c, "tag": f"t{tag}"})
+            r = host.send_and_waitfor_response(sf.SecsS02F25(pattern(it["n"]) + tag.to_bytes(4, "big")))
+            got = "none"
+            if r is not None:
+                body = bytes(r.data)
+                got = f"t{int.from_bytes(body[-4:], 'big')}" if len(body) >= 4 and r.header.function == 26 else "t?"
+            ev.append({"e": "Ret", "c": c, "tag": f"t{tag}", "got": got})
+            done[c] = True
+
+        def eq_primaries():
+            # one application thread of the equipment: its primaries go out one after the other (their order is defined)
+            for k in range(1, it["neq"] + 1):
+                eqp.send_message(eqp._create_message_for_function(sf.SecsS02F25(pattern(3) + k.to_bytes(2, "big")), eqp.get_next_system_counter()))
+                done[f"e{k}"] = True
+
+        # both sides ask for the line at the same moment: nothing moves on the line until all requests are queued
+        for c in range(1, ncall + 1):
+            simrt.Thread(target=caller, args=(c,), name=f"caller{c}").start()
+        if it["neq"]:
+            simrt.Thread(target=eq_primaries, name="eq_primaries").start()
+        s.settle()
+        idle = 0
+        want = ncall + it["neq"]
+        t_end = s.now + 4 * t3
+        while s.now < t_end and len(done) < want:
+            s.settle()
+            moved = False
+            for who, dst in (("H", le), ("E", lh)):
+                buf = pend[who]
+                if not buf:
+                    continue
+                k = len(buf) if it["chunk"] == "whole" else (1 if it["chunk"] == "byte" else rng.choice([1, 2, 3, 5, 11, 64, len(buf)]))
+                part = bytes(buf[:k])
+                del buf[:k]
+                dst.feed(part)
+                moved = True
+            if not moved:
+                idle += 1
+                nd = s.next_deadline()
+                if nd is None:
+                    break
+                s.block(("pace",), min(max(0.0, nd - s.now), t3))
+            else:
+                idle = 0
+        rec["returned"] = sorted(str(k) for k in done)
+        rec["all_returned"] = len(done) >= want
+        if not rec["all_returned"]:
+            rec["blocked"] = [b["thread"] + ":" + "/".join(b["stack"][-2:]) for b in s.blocked_report()][:6]
+
+    s = simrt.run(main, seed=it["seed"], policy=it["policy"], switch_prob=0.3, max_vtime=1e6, wall_timeout=120)
+    rec["outcome"] = s.outcome
+    if s.errors:
+        rec["errors"] = [e[:2] for e in s.errors[:2]]
+    return rec
+
+
+def run_contention_batch(job):
+    import logging
+    logging.disable(logging.CRITICAL)
+    simrt.install()
+    return [run_contention(it) for it in job]
+
+
+def check_contention(ctx, wd, pmap):
+    rng = random.Random(ctx.seed + 606)
+    items = []
+    tid = 0
+    for ncall, neq in ((1, 1), (2, 1), (1, 2), (3, 0), (2, 2)):
+        for n in (0, 300):
+            for chunk in (("rand",) if ctx.quick else ("whole", "byte", "rand")):
+                for never in ([], [101]):
+                    tid += 1
+                    items.append({"id": tid, "ncall": ncall, "neq": neq, "n": n, "chunk": chunk, "never": never, "seed": rng.randrange(1 << 30),
+                                  "policy": rng.choice(["fifo", "random", "pct"])})
+    recs = [r for b in pmap(run_contention_batch, chunks(items, 2)) for r in b]
+    good = []
+    for r in recs:
+        if r.get("errors") and "Machinery" in str(r["errors"]):
+            raise Machinery(str(r["errors"]))
+        if r["outcome"] != "done" or r.get("errors") or not r.get("all_returned"):
+            ctx.violation({"check": "secs1-contention", "clause": "a-caller-neither-got-its-reply-nor-a-timeout", "callers": r["ncall"], "equipment_primaries": r["neq"],
+                           "transfers_wanted_at_once": r["ncall"] + r["neq"],
+                           "body": r["n"], "chunk": r["chunk"], "sched": [r["seed"], r["policy"]], "returned": r.get("returned"), "blocked": r.get("blocked"),
+                           "what": f"SECS-I, {r['ncall']} host request(s) and {r['neq']} equipment primary(ies) asking for the line at the same moment: not every call "
+                                   f"returned (returned {r.get('returned')}; run {r['outcome']} {r.get('errors')}); blocked {(r.get('blocked') or [])[:2]}"})
+        else:
+            good.append(r)
+            handed = r.get("handed", [])
+            nums = [int(h[1:]) for h in handed if h.startswith("u") and h[1:].isdigit()]
+            if len(nums) != len(handed) or nums != sorted(set(nums)):
+                ctx.violation({"check": "secs1-contention", "clause": "primary-handed-over-twice-or-out-of-order", "handed": handed, "sched": [r["seed"], r["policy"]],
+                               "what": f"SECS-I line contention: the equipment's primaries u1..u{r['neq']} were handed to the host application as {handed}"})
+    f = wd / "secs1_contention_traces.json"
+    f.write_text(json.dumps([{"id": r["id"], "ev": r["ev"]} for r in good]))
+    if good:
+        rj = tlc.run("TxJudge", cfg_text="", workdir=wd, workers=1, env={"TRACE_FILE": str(f)}, what="secs1_contention_judge", coverage=False, timeout=900)
+        tlc.require_ok(rj, "TxJudge (SECS-I contention)")
+        verd = {v["id"]: v for v in rj.tagged("V")}
+        for r in good:
+            v = verd[r["id"]]
+            if v["clause"] != "ok":
+                ctx.violation({"check": "secs1-contention", "clause": v["clause"], "callers": r["ncall"], "equipment_primaries": r["neq"], "events": r["ev"],
+                               "sched": [r["seed"], r["policy"]],
+                               "what": f"SECS-I line contention ({r['ncall']} host requests, {r['neq']} equipment primaries): {v['clause']} at event {v['at']}"})
+    ctx.traces += len(good)
+    ctx.evaluations += sum(len(r["ev"]) for r in good)
+    ctx.extra["secs1_contention_runs"] = len(recs)
